@@ -62,6 +62,9 @@ def check_tpm(chk, counts_path, tpm_path, norm, desc, wit, table):
                         chk.violation("tpm-ratio:" + table, "%s: %s TPM %.6f is not %.6f x count %.2f" % (desc, k, tpm[k], scale, c), wit)
 
 
+EXPERIMENTS = ["EXA", "EXB", "EXC"]
+
+
 def run(chk, scratch):
     thorough = chk.tier == "thorough"
     chk.rule = ("rich worlds (ambiguous, inconsistent, multi-mapped, multi-chromosome reads, unmapped records) x gene/transcript strategies x "
@@ -82,7 +85,10 @@ def run(chk, scratch):
         for pi, (g, t) in enumerate(pairs):
             norm = norms[(pi + si) % len(norms)] if not thorough else None
             for n in (norms if thorough else [norm]):
-                jobs.append((seed, g, t, n))
+                jobs.append((seed, g, t, n, False))
+        # one run over three experiments (unequal shares of the reads, the unmapped records in the first two)
+        g, t = pairs[(seed + 1) % len(pairs)]
+        jobs.append((seed, g, t, norms[seed % len(norms)], True))
     worlds = {}
     for seed in seeds:
         d = os.path.join(scratch, "w%d" % seed)
@@ -90,13 +96,19 @@ def run(chk, scratch):
         pipeline.write_world(w, d)
         # every second mapped record: input of an EARLIER run into the same output folder (see below)
         w.write_bam(os.path.join(d, "half.bam"), reads=[r for i, r in enumerate(w.reads) if i % 2 == 0])
-        worlds[seed] = (d, w)
+        lst, per = pipeline.write_experiments(w, d, EXPERIMENTS, lambda e, k, r: (k % 6 in ((0, 1, 2), (3, 4), (5,))[e]) if not r.flag & 4 else k % 2 == e)
+        worlds[seed] = (d, w, per, lst)
 
     def one(job):
-        seed, g, t, n = job
-        d, w = worlds[seed]
-        out = os.path.join(d, "out_%s_%s_%s" % (g, t, n))
+        seed, g, t, n, multi = job
+        d, w, per, lst = worlds[seed]
+        out = os.path.join(d, "out_%s_%s_%s%s" % (g, t, n, "_multi" if multi else ""))
         ev = out + "_ev"
+        if multi:
+            r = pipeline.run(d, out, threads=1 + seed % 2, bam_list=lst, extra=["--gene_quantification", g, "--transcript_quantification", t,
+                                                                                  "--normalization_method", n],
+                             home=os.path.join(d, "home_%s_%s_%s_multi" % (g, t, n)), mon=["counter"], events=ev)
+            return job, out, ev, r
         if (len(g) + len(t) + seed) % 3 == 0:
             # the output folder already holds the results of an earlier run on other reads (same prefix): the run below uses --force
             r0 = pipeline.run(d, out, threads=1, bam=[os.path.join(d, "half.bam")], home=os.path.join(d, "home_%s_%s_%s" % (g, t, n)))
@@ -106,188 +118,196 @@ def run(chk, scratch):
         return job, out, ev, r
     cells = 0
     for job, out, ev, r in runner.parallel(one, jobs, workers=8):
-        seed, g, t, n = job
-        d, w = worlds[seed]
-        desc = "world=%d gene=%s transcript=%s norm=%s" % (seed, g, t, n)
-        wit = {"world_seed": seed, "gene_quantification": g, "transcript_quantification": t, "normalization": n}
+        seed, g, t, n, multi = job
+        d, w = worlds[seed][:2]
+        desc = desc0 = "world=%d gene=%s transcript=%s norm=%s%s" % (seed, g, t, n, " [3 experiments]" if multi else "")
+        wit = {"world_seed": seed, "gene_quantification": g, "transcript_quantification": t, "normalization": n, "experiments": EXPERIMENTS if multi else None}
+        per = worlds[seed][2]
         if r["rc"] is None:
             chk.inconclusive.append("watchdog expired: " + desc)
             continue
         if r["rc"] != 0:
             chk.violation("run-failed", "%s: %s" % (desc, pipeline.fail_text(r)), wit)
             continue
-        o = pipeline.Outputs(out)
-        recs = weights.group_records(o.assignments())
-        spliced = defaultdict(bool)
-        for b in o.bed():
-            if b.n > 1:
-                spliced[(b.name, b.chr)] = True
-        unmapped = sum(1 for rd in w.reads if rd.flag & 4)
-        # per-read global view (a read kept on several loci is ONE read shared by all features of all its records)
-        by_read = defaultdict(list)
-        for rc_ in recs:
-            by_read[rc_["read"]].append(rc_)
-        for level, strat, fname in (("gene", g, "gene_counts.tsv"), ("transcript", t, "transcript_counts.tsv")):
-            exp = defaultdict(Fraction)
-            exp_rec = defaultdict(Fraction)     # what the known tie mechanism gives: k counted per record (locus) instead of per read
-            types_of = defaultdict(set)
-            confirming = set()
-            amb_reads = set()
-            amb_records = 0
-            nofeat_reads = set()
-            nofeat_records = 0
-            multi_locus_single = defaultdict(int)
-            multi_locus_multi = defaultdict(int)
-            for read, rl in by_read.items():
-                feats = set()
-                for rc_ in rl:
-                    feats |= (rc_["genes"] if level == "gene" else rc_["isoforms"])
-                for rc_ in rl:
-                    f = rc_["genes"] if level == "gene" else rc_["isoforms"]
-                    atype = rc_["gtype"] if level == "gene" else rc_["atype"]
-                    if atype in ("noninformative", "intergenic") or not f:
-                        nofeat_records += 1
-                        nofeat_reads.add(read)
-                        continue
-                    if atype == "ambiguous":
-                        amb_records += 1
-                        amb_reads.add(read)
-                    k = len(feats)
-                    wgt = weights.weight(atype, k, strat) if k > 1 or atype not in weights.UNIQUE else Fraction(1)
-                    if atype in weights.UNIQUE and len(f) == 1 and k == 1:
-                        wgt = Fraction(1)
-                        if level == "gene" or spliced[(read, rc_["chr"])]:
-                            if spliced[(read, rc_["chr"])]:
-                                confirming |= f
-                    if len(rl) > 1 and len(f) == 1 and k > 1:
-                        multi_locus_single[next(iter(f))] += 1
-                    if len(rl) > 1 and len(f) > 1 and k > len(f):
-                        for x in f:
-                            multi_locus_multi[x] += 1
-                    wgt_rec = weights.weight(atype, len(f), strat)
-                    for x in f:
-                        exp[x] += wgt
-                        exp_rec[x] += wgt_rec
-                        types_of[x].add(atype)
-            table = o.counts(fname)
-            for f_ in (fname, fname.replace("counts", "tpm")):
-                dup = parse.duplicate_rows(o.path(f_))
-                if dup:
-                    chk.violation("table-row-repeated:%s" % level, "%s: %s has %d feature ids on more than one line, e.g. %s" % (desc, f_, len(dup), dup[:3]), wit)
-            stats = read_stats_lines(o.path(fname))
-            for feat, val in table.items():
-                if feat.startswith("__"):
-                    continue
-                e = exp.get(feat, Fraction(0))
-                cells += 1
-                chk.note()
-                if len(types_of.get(feat, ())) >= 2:
-                    chk.nontrivial.add((level, strat, tuple(sorted(types_of[feat]))))
-                ok_sum = abs(val - float(e)) <= 0.005 + 1e-9
-                ok_zero = val == 0.0 and feat not in confirming
-                if not (ok_sum or ok_zero):
-                    key = "count-cell-differs:%s:%s" % (level, strat)
-                    if (multi_locus_single.get(feat) or multi_locus_multi.get(feat)) and abs(val - float(exp_rec.get(feat, 0))) <= 0.005 + 1e-9:
-                        # exactly the value obtained when a read kept on several loci is weighted per locus
-                        key = "multi-locus-tie/%s-feature-record:%s" % ("multi" if multi_locus_multi.get(feat) else "single", level)
-                    chk.violation(key, "%s: %s %s printed %.2f, documented weights give %s (= %.4f) from assignment types %s%s" %
-                                  (desc, fname, feat, val, e, float(e), sorted(types_of.get(feat, ())),
-                                   "; the feature has records of reads kept on several loci" if (multi_locus_single.get(feat) or multi_locus_multi.get(feat)) else ""), wit)
-            for feat, e in exp.items():
-                if e > 0 and feat not in table:
-                    chk.violation("count-row-missing:%s" % level, "%s: %s has no row for %s (expected %s)" % (desc, fname, feat, e), wit)
-            # stats lines
-            if not (len(amb_reads) <= stats.get("__ambiguous", -1) <= amb_records):
-                chk.violation("stats-line:__ambiguous:%s" % level, "%s: %s says __ambiguous %s, reads with ambiguous %s assignment: %d (records %d)" %
-                              (desc, fname, stats.get("__ambiguous"), level, len(amb_reads), amb_records), wit)
-            if not (len(nofeat_reads) <= stats.get("__no_feature", -1) <= nofeat_records):
-                chk.violation("stats-line:__no_feature:%s" % level, "%s: %s says __no_feature %s, unassigned reads: %d (records %d)" %
-                              (desc, fname, stats.get("__no_feature"), len(nofeat_reads), nofeat_records), wit)
-            if stats.get("__not_aligned") != unmapped:
-                chk.violation("stats-line:__not_aligned:%s" % level, "%s: %s says __not_aligned %s, the BAM has %d unmapped records" %
-                              (desc, fname, stats.get("__not_aligned"), unmapped), wit)
-            check_tpm(chk, o.path(fname), o.path(fname.replace("counts", "tpm")), n, desc, wit, level)
-        # transcript model counts
-        mr = o.model_reads()
-        models_of = defaultdict(set)
-        for read, m in mr:
-            if m != "*":
-                models_of[read].add(m)
-        exp = defaultdict(Fraction)
-        model_chr = {}
-        try:
-            # locus of a model = connected component of overlapping model spans on its chromosome
-            spans = sorted((tr["chr"], min(e[0] for e in tr["exons"]), max(e[1] for e in tr["exons"]), tid) for tid, tr in o.models().transcripts.items())
-            cur = None
-            for c_, s_, e_, tid in spans:
-                if cur is None or cur[0] != c_ or s_ > cur[2]:
-                    cur = [c_, s_, e_]
-                else:
-                    cur[2] = max(cur[2], e_)
-                model_chr[tid] = (c_, cur[1])
-        except Exception:
-            pass
-        tie_models = set()
-        tie_multi = set()
-        exp_rec_m = defaultdict(Fraction)
-        for read, ms in models_of.items():
-            wgt = Fraction(1) if len(ms) == 1 else (Fraction(1, len(ms)) if weights.admits(t)["ambiguous"] else Fraction(0))
-            per_chr = defaultdict(set)
-            for m in ms:
-                per_chr[model_chr.get(m)].add(m)
-            if len(per_chr) > 1:
-                # a read kept on several loci: models of one locus see it as a read of that locus only
-                tie_models |= ms
-                for cms in per_chr.values():
-                    if len(cms) > 1:
-                        tie_multi |= cms
-            for m in ms:
-                exp[m] += wgt
-            for c_, cms in per_chr.items():
-                w2 = Fraction(1) if len(cms) == 1 else (Fraction(1, len(cms)) if weights.admits(t)["ambiguous"] else Fraction(0))
-                for m in cms:
-                    exp_rec_m[m] += w2
-        table = o.counts("transcript_model_counts.tsv")
-        dup = parse.duplicate_rows(o.path("transcript_model_counts.tsv"))
-        if dup:
-            chk.violation("table-row-repeated:transcript_model", "%s: transcript_model_counts.tsv has %d ids on more than one line, e.g. %s" % (desc, len(dup), dup[:3]), wit)
-        for m, val in table.items():
-            if m.startswith("__"):
-                continue
-            cells += 1
-            chk.note()
-            e = exp.get(m, Fraction(0))
-            if abs(val - float(e)) > 0.005 + 1e-9:
-                key = "model-count-cell-differs:%s" % t
-                if m in tie_models and abs(val - float(exp_rec_m.get(m, 0))) <= 0.005 + 1e-9:
-                    key = "multi-locus-tie/%s-feature-record:transcript_model" % ("multi" if m in tie_multi else "single")
-                chk.violation(key, "%s: transcript_model_counts %s printed %.2f, reads listed for it give %s%s" %
-                              (desc, m, val, e, "; some of its reads are kept on several loci" if m in tie_models else ""), wit)
-        for m, e in exp.items():
-            if float(e) >= 0.005 and m not in table:
-                chk.violation("model-count-row-missing", "%s: model %s has reads (weight %s) but no row" % (desc, m, e), wit)
-        check_tpm(chk, o.path("transcript_model_counts.tsv"), o.path("transcript_model_tpm.tsv"), n, desc, wit, "transcript_model")
-        # per-read total weight on the real counters (increment log)
-        import re as _re
-        tot = defaultdict(float)
-        for e in runner.load_events(ev):
-            if e["k"] == "cnt" and not e["grouped"]:
-                tot[(_re.sub(r"_chr\d+", "", e["file"]), e["read"])] += e["inc"]
-        for (f, read), v in tot.items():
-            if v > 1.0 + 1e-9:
-                lvl = "gene" if "gene" in f else "transcript"
-                key = "read-total-weight-above-1:" + lvl
-                if len(by_read.get(read, ())) > 1:
-                    multi = any(len(rc_["genes"] if lvl == "gene" else rc_["isoforms"]) > 1 for rc_ in by_read[read])
-                    key = "multi-locus-tie/%s-feature-record:%s" % ("multi" if multi else "single", lvl)
-                chk.violation(key, "%s: read %s added a total weight of %.3f to the %s counters (reported on %d loci)" %
-                              (desc, read, v, lvl, len(by_read.get(read, ()))), wit)
-        chk.count("increment_events", len(tot))
-        chk.sample({"run": desc, "records": len(recs), "reads_with_several_records": sum(1 for v in by_read.values() if len(v) > 1)}, limit=3)
+        if multi:
+            units = [(name, sum(1 for rd in per[name] if rd.flag & 4), "%s experiment=%s (one of %d in the run)" % (desc0, name, len(per))) for name in EXPERIMENTS]
+        else:
+            units = [(pipeline.PREFIX, sum(1 for rd in w.reads if rd.flag & 4), desc0)]
+        for prefix, unmapped, desc in units:
+          if multi:
+              chk.count("experiments_of_multi_experiment_runs", 1)
+          o = pipeline.Outputs(out, prefix=prefix)
+          recs = weights.group_records(o.assignments())
+          spliced = defaultdict(bool)
+          for b in o.bed():
+              if b.n > 1:
+                  spliced[(b.name, b.chr)] = True
+          # per-read global view (a read kept on several loci is ONE read shared by all features of all its records)
+          by_read = defaultdict(list)
+          for rc_ in recs:
+              by_read[rc_["read"]].append(rc_)
+          for level, strat, fname in (("gene", g, "gene_counts.tsv"), ("transcript", t, "transcript_counts.tsv")):
+              exp = defaultdict(Fraction)
+              exp_rec = defaultdict(Fraction)     # what the known tie mechanism gives: k counted per record (locus) instead of per read
+              types_of = defaultdict(set)
+              confirming = set()
+              amb_reads = set()
+              amb_records = 0
+              nofeat_reads = set()
+              nofeat_records = 0
+              multi_locus_single = defaultdict(int)
+              multi_locus_multi = defaultdict(int)
+              for read, rl in by_read.items():
+                  feats = set()
+                  for rc_ in rl:
+                      feats |= (rc_["genes"] if level == "gene" else rc_["isoforms"])
+                  for rc_ in rl:
+                      f = rc_["genes"] if level == "gene" else rc_["isoforms"]
+                      atype = rc_["gtype"] if level == "gene" else rc_["atype"]
+                      if atype in ("noninformative", "intergenic") or not f:
+                          nofeat_records += 1
+                          nofeat_reads.add(read)
+                          continue
+                      if atype == "ambiguous":
+                          amb_records += 1
+                          amb_reads.add(read)
+                      k = len(feats)
+                      wgt = weights.weight(atype, k, strat) if k > 1 or atype not in weights.UNIQUE else Fraction(1)
+                      if atype in weights.UNIQUE and len(f) == 1 and k == 1:
+                          wgt = Fraction(1)
+                          if level == "gene" or spliced[(read, rc_["chr"])]:
+                              if spliced[(read, rc_["chr"])]:
+                                  confirming |= f
+                      if len(rl) > 1 and len(f) == 1 and k > 1:
+                          multi_locus_single[next(iter(f))] += 1
+                      if len(rl) > 1 and len(f) > 1 and k > len(f):
+                          for x in f:
+                              multi_locus_multi[x] += 1
+                      wgt_rec = weights.weight(atype, len(f), strat)
+                      for x in f:
+                          exp[x] += wgt
+                          exp_rec[x] += wgt_rec
+                          types_of[x].add(atype)
+              table = o.counts(fname)
+              for f_ in (fname, fname.replace("counts", "tpm")):
+                  dup = parse.duplicate_rows(o.path(f_))
+                  if dup:
+                      chk.violation("table-row-repeated:%s" % level, "%s: %s has %d feature ids on more than one line, e.g. %s" % (desc, f_, len(dup), dup[:3]), wit)
+              stats = read_stats_lines(o.path(fname))
+              for feat, val in table.items():
+                  if feat.startswith("__"):
+                      continue
+                  e = exp.get(feat, Fraction(0))
+                  cells += 1
+                  chk.note()
+                  if len(types_of.get(feat, ())) >= 2:
+                      chk.nontrivial.add((level, strat, tuple(sorted(types_of[feat]))))
+                  ok_sum = abs(val - float(e)) <= 0.005 + 1e-9
+                  ok_zero = val == 0.0 and feat not in confirming
+                  if not (ok_sum or ok_zero):
+                      key = "count-cell-differs:%s:%s" % (level, strat)
+                      if (multi_locus_single.get(feat) or multi_locus_multi.get(feat)) and abs(val - float(exp_rec.get(feat, 0))) <= 0.005 + 1e-9:
+                          # exactly the value obtained when a read kept on several loci is weighted per locus
+                          key = "multi-locus-tie/%s-feature-record:%s" % ("multi" if multi_locus_multi.get(feat) else "single", level)
+                      chk.violation(key, "%s: %s %s printed %.2f, documented weights give %s (= %.4f) from assignment types %s%s" %
+                                    (desc, fname, feat, val, e, float(e), sorted(types_of.get(feat, ())),
+                                     "; the feature has records of reads kept on several loci" if (multi_locus_single.get(feat) or multi_locus_multi.get(feat)) else ""), wit)
+              for feat, e in exp.items():
+                  if e > 0 and feat not in table:
+                      chk.violation("count-row-missing:%s" % level, "%s: %s has no row for %s (expected %s)" % (desc, fname, feat, e), wit)
+              # stats lines
+              if not (len(amb_reads) <= stats.get("__ambiguous", -1) <= amb_records):
+                  chk.violation("stats-line:__ambiguous:%s" % level, "%s: %s says __ambiguous %s, reads with ambiguous %s assignment: %d (records %d)" %
+                                (desc, fname, stats.get("__ambiguous"), level, len(amb_reads), amb_records), wit)
+              if not (len(nofeat_reads) <= stats.get("__no_feature", -1) <= nofeat_records):
+                  chk.violation("stats-line:__no_feature:%s" % level, "%s: %s says __no_feature %s, unassigned reads: %d (records %d)" %
+                                (desc, fname, stats.get("__no_feature"), len(nofeat_reads), nofeat_records), wit)
+              if stats.get("__not_aligned") != unmapped:
+                  chk.violation("stats-line:__not_aligned:%s" % level, "%s: %s says __not_aligned %s, the BAM has %d unmapped records" %
+                                (desc, fname, stats.get("__not_aligned"), unmapped), wit)
+              check_tpm(chk, o.path(fname), o.path(fname.replace("counts", "tpm")), n, desc, wit, level)
+          # transcript model counts
+          mr = o.model_reads()
+          models_of = defaultdict(set)
+          for read, m in mr:
+              if m != "*":
+                  models_of[read].add(m)
+          exp = defaultdict(Fraction)
+          model_chr = {}
+          try:
+              # locus of a model = connected component of overlapping model spans on its chromosome
+              spans = sorted((tr["chr"], min(e[0] for e in tr["exons"]), max(e[1] for e in tr["exons"]), tid) for tid, tr in o.models().transcripts.items())
+              cur = None
+              for c_, s_, e_, tid in spans:
+                  if cur is None or cur[0] != c_ or s_ > cur[2]:
+                      cur = [c_, s_, e_]
+                  else:
+                      cur[2] = max(cur[2], e_)
+                  model_chr[tid] = (c_, cur[1])
+          except Exception:
+              pass
+          tie_models = set()
+          tie_multi = set()
+          exp_rec_m = defaultdict(Fraction)
+          for read, ms in models_of.items():
+              wgt = Fraction(1) if len(ms) == 1 else (Fraction(1, len(ms)) if weights.admits(t)["ambiguous"] else Fraction(0))
+              per_chr = defaultdict(set)
+              for m in ms:
+                  per_chr[model_chr.get(m)].add(m)
+              if len(per_chr) > 1:
+                  # a read kept on several loci: models of one locus see it as a read of that locus only
+                  tie_models |= ms
+                  for cms in per_chr.values():
+                      if len(cms) > 1:
+                          tie_multi |= cms
+              for m in ms:
+                  exp[m] += wgt
+              for c_, cms in per_chr.items():
+                  w2 = Fraction(1) if len(cms) == 1 else (Fraction(1, len(cms)) if weights.admits(t)["ambiguous"] else Fraction(0))
+                  for m in cms:
+                      exp_rec_m[m] += w2
+          table = o.counts("transcript_model_counts.tsv")
+          dup = parse.duplicate_rows(o.path("transcript_model_counts.tsv"))
+          if dup:
+              chk.violation("table-row-repeated:transcript_model", "%s: transcript_model_counts.tsv has %d ids on more than one line, e.g. %s" % (desc, len(dup), dup[:3]), wit)
+          for m, val in table.items():
+              if m.startswith("__"):
+                  continue
+              cells += 1
+              chk.note()
+              e = exp.get(m, Fraction(0))
+              if abs(val - float(e)) > 0.005 + 1e-9:
+                  key = "model-count-cell-differs:%s" % t
+                  if m in tie_models and abs(val - float(exp_rec_m.get(m, 0))) <= 0.005 + 1e-9:
+                      key = "multi-locus-tie/%s-feature-record:transcript_model" % ("multi" if m in tie_multi else "single")
+                  chk.violation(key, "%s: transcript_model_counts %s printed %.2f, reads listed for it give %s%s" %
+                                (desc, m, val, e, "; some of its reads are kept on several loci" if m in tie_models else ""), wit)
+          for m, e in exp.items():
+              if float(e) >= 0.005 and m not in table:
+                  chk.violation("model-count-row-missing", "%s: model %s has reads (weight %s) but no row" % (desc, m, e), wit)
+          check_tpm(chk, o.path("transcript_model_counts.tsv"), o.path("transcript_model_tpm.tsv"), n, desc, wit, "transcript_model")
+          # per-read total weight on the real counters (increment log)
+          import re as _re
+          tot = defaultdict(float)
+          for e in runner.load_events(ev):
+              if e["k"] == "cnt" and not e["grouped"] and os.path.basename(e["file"]).startswith((prefix + ".", prefix + "_")):
+                  tot[(_re.sub(r"_chr\d+", "", e["file"]), e["read"])] += e["inc"]
+          for (f, read), v in tot.items():
+              if v > 1.0 + 1e-9:
+                  lvl = "gene" if "gene" in f else "transcript"
+                  key = "read-total-weight-above-1:" + lvl
+                  if len(by_read.get(read, ())) > 1:
+                      mfr = any(len(rc_["genes"] if lvl == "gene" else rc_["isoforms"]) > 1 for rc_ in by_read[read])
+                      key = "multi-locus-tie/%s-feature-record:%s" % ("multi" if mfr else "single", lvl)
+                  chk.violation(key, "%s: read %s added a total weight of %.3f to the %s counters (reported on %d loci)" %
+                                (desc, read, v, lvl, len(by_read.get(read, ()))), wit)
+          chk.count("increment_events", len(tot))
+          chk.sample({"run": desc, "records": len(recs), "reads_with_several_records": sum(1 for v in by_read.values() if len(v) > 1)}, limit=3)
         shutil.rmtree(out, ignore_errors=True)
     chk.extra["cells_checked"] = cells
     chk.assumptions = ["weights from docs/cmd.md; a read kept on several loci is one read shared by all features of all its records",
                        "printed values compared at print resolution (|delta| <= 0.005); TPM recomputed from the printed counts",
                        "__ambiguous/__no_feature accepted between the number of distinct reads and the number of records"]
     chk.inconclusive_if(cells == 0, "no cell checked")
+    chk.inconclusive_if(chk.extra.get("experiments_of_multi_experiment_runs", 0) < 3, "no run over several experiments judged")
     chk.min_nontrivial = 3
